@@ -280,10 +280,30 @@ fn all_colours() -> Vec<Case> {
         rle16::emit(&wire, w, &mut st, rle16::Kind::ColorImage, w, rle16::Form::Mega, 0, 0, &mut enc);
     }
     let top = rle16::flip(&wire, w, h);
-    vec![
+    let mut v = vec![
         Case { mode: 2, w: 256, h: 256, px16: top.clone(), px32: vec![], encoded: raw, kinds: 1 },
         Case { mode: 0, w: 256, h: 256, px16: top, px32: vec![], encoded: enc, kinds: 1 },
-    ]
+    ];
+    // orders whose 16-bit length field is large (0x7FFF, 0x8000, 0xFFFF ...): colour runs and raw colour images over many scanlines
+    for (w, h, splits) in [(256usize, 256usize, vec![65535usize, 1]), (256, 256, vec![32768, 32768]), (256, 256, vec![32767, 32769]), (256, 129, vec![33000, 24]), (512, 128, vec![0xFFFF, 1]), (300, 200, vec![40000, 20000])] {
+        for image_kind in [rle16::Kind::ColorRun, rle16::Kind::ColorImage] {
+            let mut wire: Vec<u16> = Vec::with_capacity(w * h);
+            for (k, n) in splits.iter().enumerate() {
+                for i in 0..*n {
+                    wire.push(if image_kind == rle16::Kind::ColorRun { 0x1234u16.wrapping_mul(k as u16 + 3) } else { (i as u16).wrapping_mul(40503) ^ k as u16 });
+                }
+            }
+            assert_eq!(wire.len(), w * h);
+            let mut st = rle16::EncState::new();
+            let mut enc = Vec::new();
+            for n in &splits {
+                let form = if *n <= 31 { rle16::Form::Short } else { rle16::Form::Mega };
+                rle16::emit(&wire, w, &mut st, image_kind, *n, form, 0, 0, &mut enc);
+            }
+            v.push(Case { mode: 0, w: w as u16, h: h as u16, px16: rle16::flip(&wire, w, h), px32: vec![], encoded: enc, kinds: 1 });
+        }
+    }
+    v
 }
 
 pub fn check(rep: &Report) {
